@@ -138,6 +138,7 @@ type evalRes struct {
 	headChanges int
 	commitMoved int // commits (T / successful C) that changed the stored head
 	outside     map[string]int
+	unconfirmed bool // node mode: verdicts of the first run did not reproduce
 }
 
 func (r *evalRes) has(class string) *verdict {
@@ -185,8 +186,32 @@ func predicateVerdicts(res *evalRes, i int, k byte, rec Rec, obs string, runLoop
 	}
 }
 
+// evalDet evaluates one case. Node-mode cases run over a real websocket: a verdict is only kept when
+// it fires again on a second, fresh run of the same case (a defect of the code is deterministic, a
+// transport hiccup is not).
 func evalDet(or *hx.Oracle, cs *Case) *evalRes {
-	o := runDet(cs)
+	res := evalDetOnce(or, cs)
+	if cs.Node && len(res.verdicts) > 0 {
+		again := evalDetOnce(or, cs)
+		kept := res.verdicts[:0]
+		for _, v := range res.verdicts {
+			if again.has(v.class) != nil {
+				kept = append(kept, v)
+			}
+		}
+		res.verdicts = kept
+		res.unconfirmed = len(kept) == 0
+	}
+	return res
+}
+
+func evalDetOnce(or *hx.Oracle, cs *Case) *evalRes {
+	var o *detObs
+	if cs.Node {
+		o = runNode(cs)
+	} else {
+		o = runDet(cs)
+	}
 	res := &evalRes{heads: o.heads, outside: map[string]int{}}
 	res.line = cs.line(o.heads)
 	res.reply = or.Ask(res.line, 1)[0]
@@ -236,13 +261,17 @@ func evalDet(or *hx.Oracle, cs *Case) *evalRes {
 		}
 		prev = o.heads[i]
 	}
-	if cs.Fwd {
+	if cs.Fwd || cs.Node {
+		pfx := "geth-adapter:"
+		if cs.Node {
+			pfx = "geth-node:"
+		}
 		for i := range res.verdicts {
 			cl := res.verdicts[i].class
 			if f := strings.Split(cl, ":"); len(f) == 3 && f[0] == "model-mismatch" {
 				cl = f[0] + ":" + f[2] // the step kind adds nothing here: the events came through the adapter
 			}
-			res.verdicts[i].class = "geth-adapter:" + cl
+			res.verdicts[i].class = pfx + cl
 		}
 		res.verdicts = append(res.verdicts, o.adapter...)
 		if gline, idx := gethStream(cs); len(idx) > 0 {
@@ -260,7 +289,7 @@ func evalDet(or *hx.Oracle, cs *Case) *evalRes {
 				case strings.Contains(o.fwdOut[i], ","):
 					kind = "duplicated"
 				}
-				res.verdicts = append(res.verdicts, verdict{"geth-adapter:forward:" + kind,
+				res.verdicts = append(res.verdicts, verdict{pfx + "forward:" + kind,
 					fmt.Sprintf("step %d: geth event %q: the forwarding loop handed on %q, the adapter model %q",
 						i, strings.TrimSpace(strings.Split(strings.TrimPrefix(gline, "G "), ";")[j]), o.fwdOut[i], want[j]), true})
 			}
@@ -271,21 +300,21 @@ func evalDet(or *hx.Oracle, cs *Case) *evalRes {
 
 // shrinkDet drops steps (and the initial head) one at a time while the class still fires.
 func shrinkDet(or *hx.Oracle, cs *Case, class string) *Case {
-	cur := &Case{H0: cs.H0, Chunk: cs.Chunk, Steps: append([]Step{}, cs.Steps...), Gen: cs.Gen, Fwd: cs.Fwd}
+	cur := &Case{H0: cs.H0, Chunk: cs.Chunk, Steps: append([]Step{}, cs.Steps...), Gen: cs.Gen, Fwd: cs.Fwd, Node: cs.Node}
 	for changed := true; changed; {
 		changed = false
 		for i := len(cur.Steps) - 1; i >= 0; i-- {
 			if len(cur.Steps) <= 1 {
 				break
 			}
-			cand := &Case{H0: cur.H0, Chunk: cur.Chunk, Gen: cur.Gen, Fwd: cur.Fwd}
+			cand := &Case{H0: cur.H0, Chunk: cur.Chunk, Gen: cur.Gen, Fwd: cur.Fwd, Node: cur.Node}
 			cand.Steps = append(append([]Step{}, cur.Steps[:i]...), cur.Steps[i+1:]...)
 			if evalDet(or, cand).has(class) != nil {
 				cur, changed = cand, true
 			}
 		}
 		if cur.H0 != nil {
-			cand := &Case{Chunk: cur.Chunk, Steps: cur.Steps, Gen: cur.Gen, Fwd: cur.Fwd}
+			cand := &Case{Chunk: cur.Chunk, Steps: cur.Steps, Gen: cur.Gen, Fwd: cur.Fwd, Node: cur.Node}
 			if evalDet(or, cand).has(class) != nil {
 				cur, changed = cand, true
 			}
